@@ -71,7 +71,7 @@ def main():
             p = os.path.join(wt, rel)
             open(p, "w", encoding="utf-8").write(new)
             t = TESTS.get(rel, "")
-            res = subprocess.run("cd %s && timeout 900 /venv/bin/python -m pytest -x -q -p no:cacheprovider --timeout=300 %s 2>&1 | grep -aE '[0-9]+ (passed|failed)|error' | tail -1" % (wt, t),
+            res = subprocess.run("cd %s && rm -rf .bt && timeout 900 /venv/bin/python -m pytest -x -q -p no:cacheprovider --timeout=300 --basetemp=.bt %s 2>&1 | grep -aE '[0-9]+ (passed|failed)|error' | tail -1" % (wt, t),
                                  shell=True, capture_output=True, text=True)
             line = res.stdout.strip()
             ok = "passed" in line and "failed" not in line and "error" not in line
